@@ -388,3 +388,115 @@ def c04(cases, res):
     res.notes["oracle_edit_steps_checked"] = checked
     res.notes["oracle_choices_checked_in_display"] = honoured
     return out
+
+
+# ---------------------------------------------------------------- C07
+
+def case_dict(case):
+    sys_, usr = {}, {}
+    for l in case["setup"]:
+        tag, _, rest = l.partition(" ")
+        if tag == "SYS":
+            k, t, f = rest.split("|")
+            sys_.setdefault(k, {}).setdefault(t, int(f))       # add_phrase: first one wins
+    return sys_
+
+
+def user_dict_of(step):
+    d = {}
+    for ent in filter(None, (step.obs or {}).get("user", "").split(";")):
+        k, t, f, tm = ent.split("|")
+        d.setdefault(k, {})[t] = int(f)
+    return d
+
+
+def text_key(t):
+    return [int(x) for x in t.split(".") if x]
+
+
+def expected_candidates(sys_, usr, key):
+    out = sorted(sys_.get(key, {}), key=text_key)
+    out += [t for t in sorted(usr.get(key, {}), key=text_key) if t not in sys_.get(key, {})]
+    return out
+
+
+def c07(cases, res):
+    out = []
+    lists = chooses = rejected = 0
+    for case in cases:
+        sys_ = case_dict(case)
+        stale_page = False
+        for i, prev, s in steps_with_prev(case):
+            o = opts_of(s)
+            per = o[7]
+            # changing the page size or the user dictionary through the API while a list is open is
+            # outside C07's quantifier: the page index is re-validated at the next paging key
+            if s.op[0] in ("opts", "learn", "unlearn", "engine"):
+                stale_page = True
+            elif is_key(s) or s.op[0] in ("start", "cancel", "select", "jnext", "jprev", "jfirst", "jlast", "clear"):
+                stale_page = stale_page and state_of(s) == "Selecting" and s.op[0] not in ("start", "jnext", "jprev", "jfirst", "jlast") \
+                    and not (is_key(s) and key_code(s) in (KC["Left"], KC["Right"], KC["PageUp"], KC["PageDown"], KC["Space"], KC["Down"], 33, 34))
+            if state_of(s) != "Selecting":
+                stale_page = False
+            if state_of(s) == "Selecting" and s.obs and s.obs.get("cands", "-") not in ("-", "PANIC"):
+                lists += 1
+                n_s, _, body = s.obs["cands"].partition(":")
+                n = int(n_s)
+                cands = [x for x in body.split(",")] if body else []
+                if len(cands) != n:
+                    out.append(fail("total-differs-from-enumeration", case, i, "%d vs %d" % (n, len(cands))))
+                tp, pg = int(s.obs["tp"]), int(s.obs["pg"])
+                if per > 0 and tp != (n + per - 1) // per:
+                    out.append(fail("page-count", case, i, "total %d per page %d pages %d" % (n, per, tp)))
+                if n > 0 and pg >= tp and not stale_page:
+                    out.append(fail("page-index-out-of-range", case, i, "page %d of %d (%s)" % (pg, tp, " ".join(s.op))))
+                if s.snap.get("sel") == "P":
+                    b, e = int(s.snap["begin"]), int(s.snap["end"])
+                    syms = lst(s.snap.get("syms", ""))
+                    if any(not x.startswith("S") for x in syms[b:e]) or not (b < e <= len(syms)):
+                        out.append(fail("range-covers-non-syllable", case, i, "range %d-%d over %s" % (b, e, syms)))
+                        continue
+                    key = ".".join(x[1:] for x in syms[b:e])
+                    exp = expected_candidates(sys_, user_dict_of(s), key)
+                    if exp != cands:
+                        out.append(fail("candidate-list-incomplete", case, i, "range %d-%d expected %s got %s" % (b, e, exp, cands)))
+            # choosing
+            if prev is None or state_of(prev) != "Selecting" or not prev.obs or prev.obs.get("cands", "-") in ("-", "PANIC"):
+                continue
+            idx = None
+            po = opts_of(prev)
+            pn_s, _, pbody = prev.obs["cands"].partition(":")
+            pcands = pbody.split(",") if pbody else []
+            if s.op[0] == "select":
+                idx = int(s.op[1])
+                ok = s.res == "1"
+            elif is_key(s) and 1 <= key_code(s) <= 10 and not any(key_mods(s)[:2]):
+                idx = int(prev.obs["pg"]) * po[7] + key_code(s) - 1
+                ok = s.res in ("Absorb", "Commit") and state_of(s) != "Selecting"
+            if idx is None:
+                continue
+            if idx >= len(pcands):
+                rejected += 1
+                changed = [k for k in PERSIST if prev.snap.get(k) != s.snap.get(k)]
+                if (s.op[0] == "select" and s.res != "0") or (is_key(s) and s.res != "Bell") or changed:
+                    out.append(fail("out-of-range-choice-not-rejected", case, i,
+                                    "index %d of %d answered %s, changed %s" % (idx, len(pcands), s.res, changed)))
+                continue
+            if prev.snap.get("sel") != "P":
+                continue            # symbol menus: a category opens a sub-list (checked by the correspondence)
+            chooses += 1
+            b, e = int(prev.snap["begin"]), int(prev.snap["end"])
+            want = (b, e, "P", tuple(text_key(pcands[idx])))
+            sels = parse_sels(s.snap.get("sels", ""))
+            if s.res == "Commit" and is_key(s) or (s.op[0] == "select" and s.snap.get("last") == "Commit"):
+                continue            # the choice was followed by an auto-commit
+            if not ok or state_of(s) != "Entering" or want not in sels:
+                out.append(fail("chose-wrong-item", case, i, "index %d should record %s, selections now %s (result %s)" % (idx, want, sels, s.res)))
+            elif s.obs and s.obs.get("tiling") == "1":
+                disp = text_key(s.obs.get("display", ""))
+                if tuple(disp[b:e]) != want[3]:
+                    out.append(fail("chosen-item-not-displayed", case, i, "%s shown as %s" % (want, disp[b:e])))
+    res.notes["oracle_lists"] = lists
+    res.notes["oracle_choices"] = chooses
+    res.notes["oracle_rejected_choices"] = rejected
+    return out
